@@ -84,6 +84,30 @@ SCRIPTS = [
          {"op": "sync", "below": 3, "len": 3, "reqs": [3]},
          {"op": "resp", "kind": "block", "h": 3, "r": "fg", "ver": 1},
      ]},
+    # the node is stopped and restarted (new Synchronizer + new Blockchain object, same database) in the middle of
+    # catching up; and at the tip, with a reorg happening while it is down
+    {"name": "restart-mid-sync", "seed": 20, "mode": "script", "new_state": False, "init_len": 8, "plan": [],
+     "decisions": [
+         {"op": "sync", "below": 4, "len": 4, "reqs": [4]},
+         {"op": "restart"},
+     ]},
+    {"name": "restart-then-reorg", "seed": 21, "mode": "script", "new_state": True, "init_len": 6,
+     "plan": [{"drop": 2, "add": 3}],
+     "decisions": [
+         {"op": "sync", "below": 6, "len": 6, "reqs": [6]},
+         {"op": "restart", "burst": True},
+         {"op": "src"},
+     ]},
+    # degenerate shapes: a source with a single block; a whole-chain reorg found through the store path at height 1
+    # (block.Number-2 wraps around)
+    {"name": "single-block-source", "seed": 22, "mode": "script", "new_state": False, "init_len": 1, "plan": [], "decisions": []},
+    {"name": "whole-chain-reorg-at-height-1", "seed": 23, "mode": "script", "new_state": False, "init_len": 3,
+     "plan": [{"drop": 3, "add": 2}],
+     "decisions": [
+         {"op": "sync", "below": 1, "len": 1, "reqs": [1]},
+         {"op": "src"},
+         {"op": "resp", "kind": "block", "h": 1, "r": "ok", "ver": 2},
+     ]},
     {"name": "stale-head-at-tip", "seed": 14, "mode": "script", "new_state": True, "init_len": 6, "plan": [],
      "decisions": [
          {"op": "sync", "below": 6, "len": 6, "reqs": [6]},
@@ -98,25 +122,38 @@ SCRIPTS = [
 ]
 SCRIPT_KEYS = {"h13-stale-successor": K_H13, "corrupt-remote-header": K_RVV, "underflow-new-genesis": K_UFL}
 
-ENV_EVENTS = ("Reset", "Src", "Resp", "RespLatest", "End")
+ENV_EVENTS = ("Reset", "Src", "Stop", "Restart", "Resp", "RespLatest", "End")
+# monitor findings about things the trace does not contain (values retained after delivery, reads by a concurrent
+# goroutine, content read back from the database): TLC has no say on them
+OUTSIDE_TRACE = ("notification-mutated-after-delivery", "source-block-mutated-by-node", "stored-block-differs-from-source",
+                 "stored-block-unreadable", "reader-saw-head-that-is-no-source-block", "highest-header-is-no-source-block",
+                 "starting-header-wrong-height", "reader-panicked")
 
 
 def switches(ctx):
-    """FALSE = the code as it is.  A switch flips when known_findings.json lists its key as fixed
-    (or, as a development aid against a worktree, when VERIF_C06_FIXED names it)."""
+    """Which model the traces are validated against comes from known_findings.json ONLY, never from the tree under
+    test: a defect listed as `known` is modelled as coded (switch FALSE); fixed or unlisted means the repaired design
+    (switch TRUE).  VERIF_C06_FIXED is a development aid for a worktree that carries a candidate repair."""
     fixed = set(filter(None, os.environ.get("VERIF_C06_FIXED", "").split(",")))
-    for k in ctx.known:
-        if k.get("status") == "fixed":
-            fixed.add(k["key"])
-    return {"FixH13": K_H13 in fixed or "h13" in fixed,
-            "FixRevertVerify": K_RVV in fixed or "rvv" in fixed,
-            "FixUnderflow": K_UFL in fixed or "underflow" in fixed}
+    known = {k["key"] for k in ctx.known if k.get("status") == "known"}
+    return {"FixH13": K_H13 not in known or "h13" in fixed,
+            "FixRevertVerify": K_RVV not in known or "rvv" in fixed,
+            "FixUnderflow": K_UFL not in known or "underflow" in fixed}
+
+
+def machinery(ctx, msg):
+    """A machinery problem is exit 2 — unless the real code has already shown a violation in this run: then the
+    violation is the verdict and the problem (often its consequence) is only noted."""
+    if ctx.violations:
+        print("NOTE: " + msg.splitlines()[0][:300] + " (after a violation had been recorded)", flush=True)
+        return
+    raise vlib.Broken(msg)
 
 
 def trace_cfg(sw, w=GOMAXPROCS):
     b = lambda v: "TRUE" if v else "FALSE"
     return ("CONSTANTS\n  InitLen = 1\n  MaxLen = 1000\n  MaxSrcSteps = 1000\n  MaxReorgs = 1000\n  MaxNew = 1000\n"
-            "  W = %d\n  WV = %d\n  Lag = %d\n  MaxFaults = 1000000\n  MaxPolls = 1000000\n"
+            "  W = %d\n  WV = %d\n  Lag = %d\n  MaxFaults = 1000000\n  MaxPolls = 1000000\n  MaxRestarts = 1000000\n"
             "  FixH13 = %s\n  FixRevertVerify = %s\n  FixUnderflow = %s\n  Fine = TRUE\n"
             "INIT TraceInit\nNEXT TraceNext\nCONSTRAINT TraceConstraint\nPOSTCONDITION TraceAccepted\nCHECK_DEADLOCK FALSE\n"
             % (w, w, w, b(sw["FixH13"]), b(sw["FixRevertVerify"]), b(sw["FixUnderflow"])))
@@ -150,14 +187,16 @@ def validate(ctx, lines, traces, sw, w=GOMAXPROCS, timeout=1500):
             flagsets.setdefault(int(m.group(1)), []).append(frozenset(_FLAG.findall(m.group(2))))
         hw = _HW.search(out)
         if not ok and not hw:
-            raise vlib.Broken("trace validation failed without a verdict:\n" + "\n".join(out.splitlines()[-30:]))
+            machinery(ctx, "trace validation failed without a verdict:\n" + "\n".join(out.splitlines()[-30:]))
+            return verdict
         stop = int(hw.group(1)) if hw else n + 1
         rest = []
         for lo, hi, t in offs:
             if hi < stop:
                 fs = flagsets.get(t["tr"])
                 if not fs:
-                    raise vlib.Broken("trace %s consumed by TLC but no ACCEPT line was printed" % t["name"])
+                    machinery(ctx, "trace %s consumed by TLC but no ACCEPT line was printed" % t["name"])
+                    continue
                 # the flags depend on observable steps only; should interleavings differ, the most
                 # benign explanation counts
                 verdict[t["tr"]] = {"accepted": True, "flags": set(min(fs, key=len)), "event": None}
@@ -189,13 +228,16 @@ def reconcile(ctx, traces, verdict):
     """Both verdict sources must agree per trace; TLC-only rejections become violations of their own."""
     agree = 0
     for t in traces:
-        v = verdict[t["tr"]]
+        v = verdict.get(t["tr"])
+        if v is None:
+            continue
         mon = set(t["keys"])
         if not v["accepted"]:
             ev = v["event"]
-            if ev["ev"] in ENV_EVENTS and not (ev["ev"] == "End"):
-                raise vlib.Broken("TLC rejects environment event %s of trace %s: the recorder's source is not the "
-                                  "specification's source: %s" % (ev["ev"], t["name"], json.dumps(ev)))
+            if ev["ev"] in ENV_EVENTS and not (ev["ev"] == "End") and not mon:
+                machinery(ctx, "TLC rejects environment event %s of trace %s: the recorder's source is not the "
+                          "specification's source: %s" % (ev["ev"], t["name"], json.dumps(ev)))
+                continue
             if not mon:
                 key = "sync:design-has-no-explanation:" + ev["ev"]
                 ctx.report(key, "trace %s: the specification cannot take the recorded step #%d %s (no scheduling "
@@ -204,18 +246,19 @@ def reconcile(ctx, traces, verdict):
                             "input": t["replay"], "divergence": {"key": key, "event": ev, "step": v["at"]}})
             agree += 1
             continue
-        want = {mon_class(k) for k in mon}
+        want = {mon_class(k) for k in mon if not k.split(":")[1] in OUTSIDE_TRACE}
         have = {f[0] for f in v["flags"]}
         if want != have:
-            raise vlib.Broken("verdict sources disagree on trace %s: monitors %s, TLC accepted with flags %s"
-                              % (t["name"], sorted(mon), sorted(v["flags"])))
+            machinery(ctx, "verdict sources disagree on trace %s: monitors %s, TLC accepted with flags %s"
+                      % (t["name"], sorted(mon), sorted(v["flags"])))
+            continue
         for k in mon:
             if mon_class(k) == "RevertsJustified":
                 why, how = HOW.get(k.rsplit(":", 1)[1], (None, None))
                 if not any((why is None or f[1] == why) and (how is None or f[2] == how)
                            for f in v["flags"] if f[0] == "RevertsJustified"):
-                    raise vlib.Broken("verdict sources disagree on the cause of the unjustified revert in %s: %s vs %s"
-                                      % (t["name"], k, sorted(v["flags"])))
+                    machinery(ctx, "verdict sources disagree on the cause of the unjustified revert in %s: %s vs %s"
+                              % (t["name"], k, sorted(v["flags"])))
         agree += 1
     return agree
 
@@ -334,6 +377,8 @@ def run(ctx):
     design = not os.environ.get("VERIF_C06_SKIP_DESIGN")      # development aid for mutation runs
     if design:
         ctx.tlc_check("sync", "MCSync.tla", "Sync_quick.cfg", timeout=900, label="repaired: safety+liveness (chain<=3)")
+        ctx.tlc_check("sync", "MCSync.tla", "Sync_restart.cfg", timeout=900,
+                      label="repaired, one stop/restart of the node: safety+liveness+RestartIsNoOp")
         r = ctx.tlc_check("sync", "MCSync.tla", "Sync_h13.cfg", timeout=900, expect_violation=True,
                           label="as coded (H13): RevertsJustified must fail")
         if r["violated"] != "RevertsJustified":
@@ -368,7 +413,10 @@ def run(ctx):
     expect_scripts(ctx, traces, sw)
     if thorough:
         record_and_validate(ctx, binary, {"gomaxprocs": 3, "scenarios": [], "random": {"n": 120, "seed": ctx.seed + 7777}}, sw, "p3")
-        selftest(ctx, traces, lines, sw)
+        try:                                  # after every divergence has been absorbed: cannot mask a violation
+            selftest(ctx, traces, lines, sw)
+        except vlib.Broken as e:
+            machinery(ctx, str(e))
 
     ctx.assumptions += [
         "the source never returns to a block it abandoned (a reorg always produces new blocks), and an answer is computed "
